@@ -3,22 +3,25 @@ import LopdfModel.Lemmas.CMapGrammar
 /-
   C15 — property theorems: ToUnicode CMaps decode text as the CMap defines.
 
-  FULL STATEMENT (false of the code, see the `cmap_get_false_*` witnesses below):
-    for every well-formed CMap `ss` and every code `c` of length `l`,
-      get (from_sections ss) c l = ok (defines (defsOf ss) c l).
+  FULL STATEMENT, proved (`cmap_get`, `cmap_decode`, `cmap_text_get`):
+    for every well-formed CMap `ss` (any mix of bfchar / bfrange sections, 1–4-byte codes, single,
+    incrementing and array targets, overlapping or adjacent definitions in any order) and every code
+    `c` of every length `l`:   get (from_sections ss) c l = ok (defines (defsOf ss) c l),
+    and every byte string made of mapped, prefix-free codes decodes to the concatenation of the
+    defined targets, surrogate pairs becoming one scalar value.
 
-  Proved:
+  History: at the pinned commit the statement was FALSE (findings F-C15-a..e: coalesced equal
+  targets, split ranges, index panic, u16 overflow panic, BOM sniffing; refuted here by proved
+  counter-witnesses). The defects were fixed in /repo (9416257, 32becda); the model below is the
+  fixed code, and the former counter-witnesses are kept as regression theorems (`regress_*`).
+
   * `rm_inv_insert`, `rm_get_insert`, `rm_run_start`   (Lemmas/RangeMap.lean) — the interval map.
-  * `cmap_get_single`  : the full statement for CMaps whose targets are single UTF-16 units —
-                         any number of definitions, any order, overlap, adjacency, code length.
-  * `cmap_get_partial` : the full statement for arbitrary targets (multi-unit, incrementing,
-                         array, surrogate pairs) under the decidable guard `Separated`: a
-                         definition that is not single-unit touches no other definition.
-  * `cmap_get_run`     : what the code computes in ALL cases (offset from the start of the
-                         maximal equal-valued neighbourhood) — the exact cause of the defects.
-  * `segment_exact`    : a byte string made of mapped, prefix-free codes is cut into exactly
-                         these codes.
-  * `surrogates_roundtrip` : UTF-16 decoding of the encoding of scalar values (pairs → one scalar).
+  * `cmap_get`          : the full lookup statement.
+  * `cmap_get_no_panic` : `get` never panics, for EVERY CMap `from_sections` accepts (malformed targets too).
+  * `segment_exact`     : a byte string of mapped prefix-free codes is cut into exactly these codes.
+  * `surrogates_roundtrip`, `decode_exact` : UTF-16 → scalars.
+  * `cmap_decode`       : the property end to end on the model.
+  * `cmap_parse_render`, `cmap_text_get` : from the bytes of the /ToUnicode stream.
 -/
 namespace Lopdf.CMap
 open Lopdf Lopdf.Gen Lopdf.CMapSpec
@@ -50,98 +53,118 @@ theorem get_unmapped {m : UMap} {c l : Nat} (hi : ∀ l, Inv 0 none (m l)) (h : 
 /-- `get` on a code whose stored run is known -/
 theorem get_of_find {m : UMap} {c l : Nat} (hi : ∀ l, Inv 0 none (m l)) (hb : badLen l = false)
     {s e : Nat} {t : Target} (hf : rmFind (m l) c = some (s, e, t)) :
-    get m c l = targetAt c s t := by
+    get m c l = targetAt c t := by
   unfold get
   simp only [hb, Bool.false_eq_true, if_false]
   rw [rmGetKV_eq_find (hi l), hf]
 
-/-- **cmap_get_single** — CMaps whose targets are single UTF-16 units: for every code of every
-length, `get` returns exactly what the CMap defines — whatever the number, order, overlap or
-adjacency of the definitions (the stored offset `target − start` is the same for every
-code of a definition, so coalescing and splitting of runs cannot change the answer). -/
-theorem cmap_get_single (ss : List Section)
-    (hwf : ∀ d ∈ defsOf ss, d.wf ∧ d.single = true) (c l : Nat) (hc : c < U32) :
-    ∃ m, fromSections ss = some m ∧ get m c l = .ok (defines (defsOf ss) c l) := by
-  have hok : ∀ d ∈ defsOf ss, putOk d ∧ rangeOk d := by
-    intro d hd
-    have ⟨w, _⟩ := hwf d hd
-    cases d with
-    | char code len dst => exact ⟨⟨Nat.le_refl _, w.1, w.2.1⟩, trivial⟩
-    | range lo hi len dsts => exact ⟨⟨w.2.2.1, w.1, w.2.1⟩, w.2.2.1, w.2.2.2.2.1⟩
-  obtain ⟨m, hm, hinv, hval⟩ := fromSections_val ss hok
-  refine ⟨m, hm, ?_⟩
-  unfold defines
-  cases hl : lastCovering (defsOf ss) c l with
-  | none =>
-    have : rmVal (m l) c = none := by rw [hval, hl]; rfl
-    rw [get_unmapped hinv this]; rfl
-  | some D =>
-    have hD := lastCoveringFrom_some hl
-    simp only [reduceCtorEq, or_false] at hD
-    obtain ⟨hmem, hcov⟩ := hD
-    obtain ⟨hlen, hlo, hhi⟩ := covers_iff.mp hcov
-    obtain ⟨w, hs⟩ := hwf D hmem
-    have hv : rmVal (m l) c = some (storedOf D) := by rw [hval, hl]; rfl
-    unfold rmVal at hv
-    cases hf : rmFind (m l) c with
-    | none => rw [hf] at hv; simp at hv
-    | some r =>
-      obtain ⟨s, e, t⟩ := r
-      rw [hf] at hv
-      simp only [Option.map_some, Option.some.injEq] at hv
-      subst hv
-      cases D with
-      | char code len dst =>
-        have hb : badLen l = false := by
-          simp only [Def.len] at hlen; subst hlen; exact badLen_false w.1 w.2.1
-        rw [get_of_find hinv hb hf]
-        match dst, hs with
-        | [u], _ =>
-          simp only [Def.lo, Def.hi] at hlo hhi
-          have hcc : c = code := by omega
-          subst hcc
-          have hu : u < 65536 := w.2.2.2.2 u (by simp)
-          simp only [storedOf, Option.bind_some, Def.target, targetAt]
-          rw [single_arith u c c (Nat.le_refl _) hc (by omega)]
-          simp
-      | range lo hi len dsts =>
-        have hb : badLen l = false := by
-          simp only [Def.len] at hlen; subst hlen; exact badLen_false w.1 w.2.1
-        rw [get_of_find hinv hb hf]
-        match dsts, hs with
-        | [[u]], _ =>
-          simp only [Def.lo, Def.hi] at hlo hhi
-          have hfit : u + (hi - lo) < 65536 := w.2.2.2.2.2.2 u rfl
-          simp only [storedOf, Option.bind_some, Def.target, targetAt, List.getLast?_singleton, List.dropLast_singleton,
-            List.nil_append]
-          rw [single_arith u lo c hlo hc (by omega)]
+theorem dropLast_append_last : ∀ (l : List Nat) (a : Nat), l.getLast? = some a → l.dropLast ++ [a] = l
+  | [], a, h => by simp at h
+  | [x], a, h => by simp at h; simp [h]
+  | x :: y :: t, a, h => by
+    have h' : (y :: t).getLast? = some a := by simpa [List.getLast?_cons_cons] using h
+    have := dropLast_append_last (y :: t) a h'
+    simp only [List.dropLast_cons_cons, List.cons_append, this]
 
-/-- non-vacuity of `cmap_get_single`: overlapping and adjacent single-unit definitions -/
-example : ∀ d ∈ defsOf [.bfRange [((0x20, 0x7e, 1), [[0x20]]), ((0x41, 0x5a, 1), [[0x61]])],
-                        .bfChar [((0x5b, 1), [0x7b]), ((0x0102, 2), [0x263a])]],
-    d.wf ∧ d.single = true := by
-  intro d hd
-  simp [defsOf, defsOfChars, defsOfRanges] at hd
-  rcases hd with h | h | h | h <;> subst h <;> simp [Def.wf, Def.single]
+/-- **the stored target of a well-formed definition evaluates to the defined target** for every code
+the definition covers — whatever run of the interval map the code ended up in. -/
+theorem targetAt_stored (D : Def) (hwf : D.wf) (c : Nat) (hlo : D.lo ≤ c) (hhi : c ≤ D.hi) (hc : c < U32) :
+    targetAt c (storedOf D) = .ok (D.target c) := by
+  cases D with
+  | char code len dst =>
+    simp only [Def.lo, Def.hi] at hlo hhi
+    have hcc : c = code := by omega
+    subst hcc
+    obtain ⟨_, _, _, hne, hu⟩ := hwf
+    cases dst with
+    | nil => exact absurd rfl hne
+    | cons u t =>
+      cases t with
+      | nil =>
+        simp only [storedOf, Def.target, targetAt]
+        rw [single_arith u c c (Nat.le_refl _) hc (by have := hu u (by simp); omega)]
+        simp
+      | cons v t' =>
+        simp only [storedOf, Def.target, targetAt, Nat.sub_self, Nat.lt_irrefl, if_false]
+        cases hg : (u :: v :: t').getLast? with
+        | none => simp at hg
+        | some last =>
+          have hlast : last < 65536 := hu last (List.mem_of_getLast? hg)
+          have e0 : (last + 0 % U16) % U16 = last := by unfold U16; omega
+          simp only [e0, dropLast_append_last _ last hg]
+  | range lo hi len dsts =>
+    simp only [Def.lo, Def.hi] at hlo hhi
+    obtain ⟨_, _, hlh, _, hne, hts, hshape⟩ := hwf
+    have hnlt : ¬ c < lo := by omega
+    cases dsts with
+    | nil => exact absurd rfl hne
+    | cons t rest =>
+      cases rest with
+      | nil =>
+        cases t with
+        | nil => exact absurd rfl (hts [] (by simp)).1
+        | cons u t' =>
+          cases t' with
+          | nil =>
+            have hfit : u + (hi - lo) < 65536 := hshape u rfl
+            simp only [storedOf, Def.target, targetAt, List.getLast?_singleton, List.dropLast_singleton,
+              List.nil_append]
+            rw [single_arith u lo c hlo hc (by omega)]
+          | cons v t'' =>
+            simp only [storedOf, Def.target, targetAt, hnlt, if_false]
+            cases hg : (u :: v :: t'').getLast? with
+            | none => simp at hg
+            | some last =>
+              have hfit : last + (hi - lo) < 65536 := hshape last hg
+              have e0 : (last + (c - lo) % U16) % U16 = last + (c - lo) := by unfold U16; omega
+              simp only [e0]
+      | cons t2 rest2 =>
+        have hlen : (t :: t2 :: rest2).length = hi - lo + 1 := hshape
+        simp only [storedOf, Def.target, targetAt, hnlt, if_false]
 
-/-! ### what the code computes in general, and the guard under which it is right -/
+/-- the stored target of ANY definition never makes `get` panic on a code the definition covers -/
+theorem targetAt_stored_no_panic (D : Def) (c : Nat) (hlo : D.lo ≤ c) :
+    (targetAt c (storedOf D)).isPanic = false := by
+  cases D with
+  | char code len dst =>
+    simp only [Def.lo] at hlo
+    have hn : ¬ c < code := by omega
+    cases dst with
+    | nil => simp [storedOf, targetAt, Outcome.isPanic]
+    | cons u t =>
+      cases t with
+      | nil => simp [storedOf, targetAt, Outcome.isPanic]
+      | cons v t' =>
+        simp only [storedOf, targetAt, hn, if_false]
+        cases (u :: v :: t').getLast? <;> rfl
+  | range lo hi len dsts =>
+    simp only [Def.lo] at hlo
+    have hn : ¬ c < lo := by omega
+    cases dsts with
+    | nil => simp [storedOf, targetAt, hn, Outcome.isPanic]
+    | cons t rest =>
+      cases rest with
+      | nil =>
+        cases t with
+        | nil => simp [storedOf, targetAt, Outcome.isPanic]
+        | cons u t' =>
+          cases t' with
+          | nil => simp [storedOf, targetAt, Outcome.isPanic]
+          | cons v t'' =>
+            simp only [storedOf, targetAt, hn, if_false]
+            cases (u :: v :: t'').getLast? <;> rfl
+      | cons t2 rest2 => simp [storedOf, targetAt, hn, Outcome.isPanic]
 
-/-- the value stored for code `x` of length `l` after `from_sections`, in terms of the definitions -/
-def storedAt (ds : List Def) (l x : Nat) : Option Target := (lastCovering ds x l).map storedOf
-
-/-- **cmap_get_run** — what `get` computes for EVERY CMap (well-formed or not, any targets):
-the target stored for the last covering definition, evaluated with the offset counted from
-the start of the maximal neighbourhood of codes carrying an EQUAL stored target
-(`reachDown`), not from the start of the definition. All defects F-C15-a..d are instances. -/
-theorem cmap_get_run (ss : List Section) (hok : ∀ d ∈ defsOf ss, putOk d ∧ rangeOk d) (c l : Nat) :
+/-- what `get` computes for every CMap `from_sections` accepts: the stored target of the last covering
+definition, evaluated at the code -/
+theorem get_eq_stored (ss : List Section) (hok : ∀ d ∈ defsOf ss, putOk d ∧ rangeOk d) (c l : Nat) :
     ∃ m, fromSections ss = some m ∧
       get m c l =
         match lastCovering (defsOf ss) c l with
         | none => .ok none
-        | some D => targetAt c (reachDown (storedAt (defsOf ss) l) (storedOf D) c) (storedOf D) := by
+        | some D => targetAt c (storedOf D) := by
   obtain ⟨m, hm, hinv, hval⟩ := fromSections_val ss hok
   refine ⟨m, hm, ?_⟩
-  have hfun : rmVal (m l) = storedAt (defsOf ss) l := funext fun x => hval x l
   cases hl : lastCovering (defsOf ss) c l with
   | none =>
     have : rmVal (m l) c = none := by rw [hval, hl]; rfl
@@ -164,168 +187,23 @@ theorem cmap_get_run (ss : List Section) (hok : ∀ d ∈ defsOf ss, putOk d ∧
       simp only [Option.map_some, Option.some.injEq] at hv
       subst hv
       rw [get_of_find hinv hb hf]
-      have hkv : rmGetKV (m l) c = some (s, e, storedOf D) := by rw [rmGetKV_eq_find (hinv l), hf]
-      have := (rm_run_start (hinv l) hkv).1
-      rw [hfun] at this
-      simp only [this]
 
-theorem dropLast_append_last : ∀ (l : List Nat) (a : Nat), l.getLast? = some a → l.dropLast ++ [a] = l
-  | [], a, h => by simp at h
-  | [x], a, h => by simp at h; simp [h]
-  | x :: y :: t, a, h => by
-    have h' : (y :: t).getLast? = some a := by simpa [List.getLast?_cons_cons] using h
-    have := dropLast_append_last (y :: t) a h'
-    simp only [List.dropLast_cons_cons, List.cons_append, this]
+theorem wf_ok {ds : List Def} (hwf : ∀ d ∈ ds, d.wf) : ∀ d ∈ ds, putOk d ∧ rangeOk d := by
+  intro d hd
+  have w := hwf d hd
+  cases d with
+  | char code len dst => exact ⟨⟨Nat.le_refl _, w.1, w.2.1⟩, trivial⟩
+  | range lo hi len dsts => exact ⟨⟨w.2.2.1, w.1, w.2.1⟩, w.2.2.1, w.2.2.2.2.1⟩
 
-/-- If the run starts where the definition starts, a well-formed definition is evaluated correctly. -/
-theorem targetAt_own_start (D : Def) (hwf : D.wf) (c : Nat) (hlo : D.lo ≤ c) (hhi : c ≤ D.hi) (hc : c < U32) :
-    targetAt c D.lo (storedOf D) = .ok (D.target c) := by
-  cases D with
-  | char code len dst =>
-    simp only [Def.lo, Def.hi] at hlo hhi
-    have hcc : c = code := by omega
-    subst hcc
-    obtain ⟨_, _, _, hne, hu⟩ := hwf
-    cases dst with
-    | nil => exact absurd rfl hne
-    | cons u t =>
-      cases t with
-      | nil =>
-        simp only [storedOf, Def.target, targetAt, Def.lo]
-        rw [single_arith u c c (Nat.le_refl _) hc (by have := hu u (by simp); omega)]
-        simp
-      | cons v t' =>
-        simp only [storedOf, Def.target, targetAt, Def.lo, Nat.sub_self]
-        cases hg : (u :: v :: t').getLast? with
-        | none => simp at hg
-        | some last =>
-          have hlast : last < 65536 := hu last (List.mem_of_getLast? hg)
-          have : ¬ (last + 0 % U16 ≥ U16) := by unfold U16; omega
-          simp only [this, if_false]
-          have e0 : last + 0 % U16 = last := by unfold U16; omega
-          rw [e0, dropLast_append_last _ last hg]
-  | range lo hi len dsts =>
-    simp only [Def.lo, Def.hi] at hlo hhi
-    obtain ⟨_, _, hlh, _, hne, hts, hshape⟩ := hwf
-    cases dsts with
-    | nil => exact absurd rfl hne
-    | cons t rest =>
-      cases rest with
-      | nil =>
-        cases t with
-        | nil => exact absurd rfl (hts [] (by simp)).1
-        | cons u t' =>
-          cases t' with
-          | nil =>
-            have hfit : u + (hi - lo) < 65536 := hshape u rfl
-            simp only [storedOf, Def.target, targetAt, Def.lo, List.getLast?_singleton, List.dropLast_singleton,
-              List.nil_append]
-            rw [single_arith u lo c hlo hc (by omega)]
-          | cons v t'' =>
-            simp only [storedOf, Def.target, targetAt, Def.lo]
-            cases hg : (u :: v :: t'').getLast? with
-            | none => simp at hg
-            | some last =>
-              have hfit : last + (hi - lo) < 65536 := hshape last hg
-              have e0 : (c - lo) % U16 = c - lo := by unfold U16; omega
-              have : ¬ (last + (c - lo) ≥ U16) := by unfold U16; omega
-              simp only [e0, this, if_false]
-      | cons t2 rest2 =>
-        have hlen : (t :: t2 :: rest2).length = hi - lo + 1 := hshape
-        simp only [storedOf, Def.target, targetAt, Def.lo]
-        have hidx : c - lo < (t :: t2 :: rest2).length := by omega
-        rw [List.getElem?_eq_getElem hidx]
-
-/-- the value of a single-unit definition does not depend on where the stored run starts -/
-theorem targetAt_single (D : Def) (hs : D.single = true) (c s s' : Nat) :
-    targetAt c s (storedOf D) = targetAt c s' (storedOf D) := by
-  cases D with
-  | char code len dst =>
-    match dst, hs with
-    | [u], _ => rfl
-  | range lo hi len dsts =>
-    match dsts, hs with
-    | [[u]], _ => rfl
-
-/-- two definitions overlap: same code length, a common code -/
-def overlapsB (d e : Def) : Bool :=
-  decide (d.len = e.len) && decide (d.lo ≤ e.hi) && decide (e.lo ≤ d.hi)
-
-/-- two definitions are adjacent: same code length, one ends right before the other starts -/
-def adjacentB (d e : Def) : Bool :=
-  decide (d.len = e.len) && (decide (d.hi + 1 = e.lo) || decide (e.hi + 1 = d.lo))
-
-/-- a pair of definitions is harmless: both single-unit, or they do not overlap and — if adjacent —
-are stored with different targets (so the interval map cannot coalesce them) -/
-def sepPair (d e : Def) : Bool :=
-  (d.single && e.single) || (!overlapsB d e && (!adjacentB d e || decide (storedOf d ≠ storedOf e)))
-
-/-- **the guard** (decidable, on the input): every definition that is not single-unit overlaps no
-other definition and is not adjacent to a definition with an equal multi-unit / array target.
-(Single-unit definitions may overlap each other freely and may be adjacent to anything.) -/
-def separated : List Def → Bool
-  | [] => true
-  | d :: ds => ds.all (sepPair d) && separated ds
-
-theorem sepPair_iff {d e : Def} : sepPair d e = true ↔
-    (d.single = true ∧ e.single = true) ∨
-    (¬ (d.len = e.len ∧ d.lo ≤ e.hi ∧ e.lo ≤ d.hi) ∧
-     ((d.len = e.len ∧ (d.hi + 1 = e.lo ∨ e.hi + 1 = d.lo)) → storedOf d ≠ storedOf e)) := by
-  unfold sepPair overlapsB adjacentB
-  by_cases h1 : d.single = true <;> by_cases h2 : e.single = true <;> by_cases a : d.len = e.len <;>
-    by_cases b : d.lo ≤ e.hi <;> by_cases c : e.lo ≤ d.hi <;> by_cases f : d.hi + 1 = e.lo <;>
-    by_cases g : e.hi + 1 = d.lo <;> by_cases k : storedOf d = storedOf e <;> simp [h1, h2, a, b, c, f, g, k]
-
-theorem sepPair_symm {d e : Def} (h : sepPair d e = true) : sepPair e d = true := by
-  rw [sepPair_iff] at h ⊢
-  rcases h with h | ⟨h, k⟩
-  · exact Or.inl ⟨h.2, h.1⟩
-  · refine Or.inr ⟨fun ⟨a, b, c⟩ => h ⟨a.symm, c, b⟩, fun ⟨a, b⟩ e => k ⟨a.symm, b.symm⟩ e.symm⟩
-
-theorem separated_mem {ds : List Def} (h : separated ds = true) {a b : Def} (ha : a ∈ ds) (hb : b ∈ ds) :
-    a = b ∨ sepPair a b = true := by
-  induction ds with
-  | nil => cases ha
-  | cons d ds ih =>
-    simp only [separated, Bool.and_eq_true, List.all_eq_true] at h
-    rcases List.mem_cons.mp ha with ha' | ha' <;> rcases List.mem_cons.mp hb with hb' | hb'
-    · exact Or.inl (ha'.trans hb'.symm)
-    · rw [ha']; exact Or.inr (h.1 b hb')
-    · rw [hb']; exact Or.inr (sepPair_symm (h.1 a ha'))
-    · exact ih h.2 ha' hb'
-
-theorem lastCoveringFrom_isSome {acc : Option Def} {ds : List Def} {c l : Nat}
-    (h : acc.isSome = true ∨ ∃ d ∈ ds, d.covers c l = true) : (lastCoveringFrom acc ds c l).isSome = true := by
-  induction ds generalizing acc with
-  | nil =>
-    rcases h with h | ⟨d, hd, _⟩
-    · exact h
-    · cases hd
-  | cons d ds ih =>
-    unfold lastCoveringFrom
-    apply ih
-    by_cases hc : d.covers c l = true
-    · left; simp [hc]
-    · rcases h with h | ⟨d', hd', hc'⟩
-      · left; simp [hc, h]
-      · rcases List.mem_cons.mp hd' with e | e
-        · subst e; exact absurd hc' hc
-        · right; exact ⟨d', e, hc'⟩
-
-/-- **cmap_get_partial** — the full statement of C15 for ARBITRARY targets (multi-unit strings,
-incrementing ranges, arrays, surrogate pairs, mixed with single-unit definitions in any order,
-which may overlap each other freely) under the guard `separated`: for every code of every
-length, `get` returns exactly what the CMap defines. -/
-theorem cmap_get_partial (ss : List Section)
-    (hwf : ∀ d ∈ defsOf ss, d.wf) (hsep : separated (defsOf ss) = true) (c l : Nat) (hc : c < U32) :
+/-- **cmap_get — the full statement.** For every well-formed CMap (any mix of bfchar and bfrange
+sections; 1–4-byte codes; single-unit, multi-unit incrementing and array targets; overlapping or
+adjacent definitions in any order) and every code of every length: `from_sections` succeeds and
+`get` returns exactly what the CMap defines — the target of the LAST definition covering the code,
+the offset within the range added to the last UTF-16 unit, an array target indexed by the offset;
+`none` for an unmapped code. No guard. -/
+theorem cmap_get (ss : List Section) (hwf : ∀ d ∈ defsOf ss, d.wf) (c l : Nat) (hc : c < U32) :
     ∃ m, fromSections ss = some m ∧ get m c l = .ok (defines (defsOf ss) c l) := by
-  have hok : ∀ d ∈ defsOf ss, putOk d ∧ rangeOk d := by
-    intro d hd
-    have w := hwf d hd
-    cases d with
-    | char code len dst => exact ⟨⟨Nat.le_refl _, w.1, w.2.1⟩, trivial⟩
-    | range lo hi len dsts => exact ⟨⟨w.2.2.1, w.1, w.2.1⟩, w.2.2.1, w.2.2.2.2.1⟩
-  obtain ⟨m, hm, hget⟩ := cmap_get_run ss hok c l
+  obtain ⟨m, hm, hget⟩ := get_eq_stored ss (wf_ok hwf) c l
   refine ⟨m, hm, ?_⟩
   rw [hget]
   unfold defines
@@ -335,118 +213,79 @@ theorem cmap_get_partial (ss : List Section)
     have hD := lastCoveringFrom_some hl
     simp only [reduceCtorEq, or_false] at hD
     obtain ⟨hmem, hcov⟩ := hD
-    obtain ⟨hlen, hlo, hhi⟩ := covers_iff.mp hcov
+    obtain ⟨_, hlo, hhi⟩ := covers_iff.mp hcov
     simp only [Option.bind_some]
-    rw [← targetAt_own_start D (hwf D hmem) c hlo hhi hc]
-    by_cases hs : D.single = true
-    · exact targetAt_single D hs c _ _
-    · -- a non-single definition touches nothing: its stored neighbourhood is exactly its own range
-      have hothers : ∀ x D', lastCovering (defsOf ss) x l = some D' → D' = D ∨
-          (¬ (D'.lo ≤ D.hi ∧ D.lo ≤ D'.hi) ∧ ((D'.hi + 1 = D.lo ∨ D.hi + 1 = D'.lo) → storedOf D' ≠ storedOf D)) := by
-        intro x D' hx
-        have hD' := lastCoveringFrom_some hx
-        simp only [reduceCtorEq, or_false] at hD'
-        obtain ⟨hmem', hcov'⟩ := hD'
-        obtain ⟨hlen', _, _⟩ := covers_iff.mp hcov'
-        have hll : D'.len = D.len := hlen'.trans hlen.symm
-        rcases separated_mem hsep hmem' hmem with e | e
-        · exact Or.inl e
-        · rw [sepPair_iff] at e
-          rcases e with e | ⟨e1, e2⟩
-          · exact absurd e.2 hs
-          · exact Or.inr ⟨fun ⟨p, q⟩ => e1 ⟨hll, p, q⟩, fun p => e2 ⟨hll, p⟩⟩
-      have hin : ∀ x, D.lo ≤ x → x ≤ D.lo + (c - D.lo) → storedAt (defsOf ss) l x = some (storedOf D) := by
-        intro x hx1 hx2
-        have hcx : D.covers x l = true := covers_iff.mpr ⟨hlen, hx1, by omega⟩
-        have hsome := lastCoveringFrom_isSome (acc := none) (Or.inr ⟨D, hmem, hcx⟩)
-        unfold storedAt
-        cases hx : lastCovering (defsOf ss) x l with
-        | none => unfold lastCovering at hx; rw [hx] at hsome; simp at hsome
-        | some D' =>
-          have hD' := lastCoveringFrom_some hx
-          simp only [reduceCtorEq, or_false] at hD'
-          obtain ⟨_, h1, h2⟩ := covers_iff.mp hD'.2
-          rcases hothers x D' hx with e | ⟨e, _⟩
-          · rw [e]; rfl
-          · exact absurd ⟨by omega, by omega⟩ e
-      have hbelow : 0 < D.lo → storedAt (defsOf ss) l (D.lo - 1) ≠ some (storedOf D) := by
-        intro hpos
-        unfold storedAt
-        cases hx : lastCovering (defsOf ss) (D.lo - 1) l with
-        | none => simp
-        | some D' =>
-          have hD' := lastCoveringFrom_some hx
-          simp only [reduceCtorEq, or_false] at hD'
-          obtain ⟨_, h1, h2⟩ := covers_iff.mp hD'.2
-          rcases hothers _ D' hx with e | ⟨e1, e2⟩
-          · subst e; omega
-          · have hadj : D'.hi + 1 = D.lo := by
-              by_cases hh : D'.hi + 1 = D.lo
-              · exact hh
-              · exact absurd ⟨by omega, by omega⟩ e1
-            have := e2 (Or.inl hadj)
-            simp only [Option.map_some, ne_eq, Option.some.injEq]
-            exact this
-      have hcs : c = D.lo + (c - D.lo) := by omega
-      have := reachDown_eq (storedAt (defsOf ss) l) (storedOf D) D.lo (c - D.lo) hin hbelow
-      rw [← hcs] at this
-      rw [this]
+    exact targetAt_stored D (hwf D hmem) c hlo hhi hc
 
-/-- non-vacuity of `cmap_get_partial`: ligatures adjacent to single-unit entries and to a different
-ligature, an incrementing multi-unit range with an adjacent ligature, an array with a surrogate pair,
-and overlapping single-unit definitions -/
-example :
-    let ss : List Section :=
-      [.bfChar [((0x01, 1), [0x66, 0x69]), ((0x02, 1), [0x41]), ((0x03, 1), [0x66, 0x6c]), ((0x04, 1), [0x66, 0x69]),
-                ((0x14, 1), [0x66, 0x66])],
+/-- non-vacuity of `cmap_get`: ligatures adjacent to each other with EQUAL targets, a later bfchar inside
+an incrementing multi-unit range, adjacent equal arrays, a target ending in FFFF, an array with a
+surrogate pair, overlapping single-unit ranges — everything the old code got wrong, all well-formed -/
+example : ∀ d ∈ defsOf
+      [.bfChar [((0x01, 1), [0x66, 0x69]), ((0x02, 1), [0x66, 0x69]), ((0x05, 1), [0x41, 0xFFFF]), ((0x06, 1), [0x41, 0xFFFF])],
        .bfRange [((0x10, 0x13, 1), [[0x41, 0x30]]), ((0x20, 0x21, 1), [[0xD83D, 0xDE00], [0x263a]]),
-                 ((0x30, 0x7e, 1), [[0x30]]), ((0x41, 0x5a, 1), [[0x61]])]]
-    (∀ d ∈ defsOf ss, d.wf) ∧ separated (defsOf ss) = true := by
-  refine ⟨?_, by decide⟩
+                 ((0x22, 0x23, 1), [[0xD83D, 0xDE00], [0x263a]]), ((0x30, 0x7e, 1), [[0x30]]), ((0x41, 0x5a, 1), [[0x61]])],
+       .bfChar [((0x11, 1), [0x58])]],
+    d.wf := by
   intro d hd
   simp [defsOf, defsOfChars, defsOfRanges] at hd
-  rcases hd with h | h | h | h | h | h | h | h | h <;> subst h <;> simp [Def.wf]
+  rcases hd with h | h | h | h | h | h | h | h | h | h <;> subst h <;> simp [Def.wf]
 
-/-! ### the full statement is false: concrete counter-witnesses (each replayed on the real code) -/
+/-- **cmap_get_no_panic** — for EVERY CMap `from_sections` accepts (targets of any shape: empty, arrays
+shorter or longer than their range, incrementing targets running past FFFF) and every code of every
+length, `get` does not panic: the two `code - start` subtractions cannot underflow, the array is
+indexed with `.get`, the `u16` addition wraps. -/
+theorem cmap_get_no_panic (ss : List Section) (hok : ∀ d ∈ defsOf ss, putOk d ∧ rangeOk d) (c l : Nat) :
+    ∃ m, fromSections ss = some m ∧ (get m c l).isPanic = false := by
+  obtain ⟨m, hm, hget⟩ := get_eq_stored ss hok c l
+  refine ⟨m, hm, ?_⟩
+  rw [hget]
+  cases hl : lastCovering (defsOf ss) c l with
+  | none => rfl
+  | some D =>
+    have hD := lastCoveringFrom_some hl
+    simp only [reduceCtorEq, or_false] at hD
+    obtain ⟨_, hlo, _⟩ := covers_iff.mp hD.2
+    exact targetAt_stored_no_panic D c hlo
+
+/-! ### regression: the former counter-witnesses (F-C15-a..d) on the fixed code -/
 
 /-- result of `get` after `from_sections` -/
 def getAfter (ss : List Section) (c l : Nat) : Option (Outcome (Option (List Nat))) :=
   (fromSections ss).map fun m => get m c l
 
-/-- F-C15-a: two adjacent codes mapped to the same ligature: the second decodes as "fj". -/
+/-- F-C15-a (fixed): two adjacent codes mapped to the same ligature both decode to it ("fifi", not "fifj"). -/
 def witA : List Section := [.bfChar [((1, 1), [0x66, 0x69]), ((2, 1), [0x66, 0x69])]]
-theorem cmap_get_false_adjacent :
-    getAfter witA 2 1 = some (.ok (some [0x66, 0x6a])) ∧ defines (defsOf witA) 2 1 = some [0x66, 0x69] ∧
-    (fromSections witA).map (fun m => (bytesToUnits m [1, 2])) = some (.ok [0x66, 0x69, 0x66, 0x6a]) := by
+theorem regress_adjacent :
+    getAfter witA 2 1 = some (.ok (defines (defsOf witA) 2 1)) ∧ defines (defsOf witA) 2 1 = some [0x66, 0x69] ∧
+    (fromSections witA).map (fun m => (bytesToUnits m [1, 2])) = some (.ok [0x66, 0x69, 0x66, 0x69]) := by
   decide
 
-/-- F-C15-b: a later bfchar inside an incrementing multi-unit range shifts the rest of the range. -/
+/-- F-C15-b (fixed): a later bfchar inside an incrementing multi-unit range does not shift the rest. -/
 def witB : List Section := [.bfRange [((0x10, 0x13, 1), [[0x41, 0x42]])], .bfChar [((0x11, 1), [0x58])]]
-theorem cmap_get_false_split :
-    getAfter witB 0x12 1 = some (.ok (some [0x41, 0x42])) ∧ defines (defsOf witB) 0x12 1 = some [0x41, 0x44] := by
+theorem regress_split :
+    getAfter witB 0x12 1 = some (.ok (some [0x41, 0x44])) ∧ defines (defsOf witB) 0x12 1 = some [0x41, 0x44] := by
   decide
 
-/-- F-C15-b (array): the remaining piece of an array range is indexed from its own start. -/
 def witB' : List Section :=
   [.bfRange [((0x10, 0x12, 1), [[0x41, 0x41], [0x42, 0x42], [0x43, 0x43]])], .bfChar [((0x10, 1), [0x58])]]
-theorem cmap_get_false_split_array :
-    getAfter witB' 0x11 1 = some (.ok (some [0x41, 0x41])) ∧ defines (defsOf witB') 0x11 1 = some [0x42, 0x42] := by
+theorem regress_split_array :
+    getAfter witB' 0x11 1 = some (.ok (some [0x42, 0x42])) ∧ defines (defsOf witB') 0x11 1 = some [0x42, 0x42] := by
   decide
 
-/-- F-C15-c: two adjacent array ranges with equal arrays (a well-formed CMap): index panic. -/
+/-- F-C15-c (fixed): two adjacent array ranges with equal arrays: no index panic, the right entry. -/
 def witC : List Section :=
   [.bfRange [((1, 2, 1), [[0x41, 0x41], [0x42, 0x42]]), ((3, 4, 1), [[0x41, 0x41], [0x42, 0x42]])]]
-theorem cmap_get_false_index_panic :
-    getAfter witC 3 1 = some (.panic CMAP_SITE_INDEX) ∧ defines (defsOf witC) 3 1 = some [0x41, 0x41] := by
+theorem regress_index :
+    getAfter witC 3 1 = some (.ok (some [0x41, 0x41])) ∧ defines (defsOf witC) 3 1 = some [0x41, 0x41] := by
   decide
 
-/-- F-C15-d: coalesced equal targets ending in FFFF (a well-formed CMap): u16 overflow panic. -/
+/-- F-C15-d (fixed): equal adjacent targets ending in FFFF: no overflow panic, the defined target. -/
 def witD : List Section := [.bfChar [((1, 1), [0x41, 0xFFFF]), ((2, 1), [0x41, 0xFFFF])]]
-theorem cmap_get_false_overflow_panic :
-    getAfter witD 2 1 = some (.panic CMAP_SITE_ADD) ∧ defines (defsOf witD) 2 1 = some [0x41, 0xFFFF] := by
+theorem regress_overflow :
+    getAfter witD 2 1 = some (.ok (some [0x41, 0xFFFF])) ∧ defines (defsOf witD) 2 1 = some [0x41, 0xFFFF] := by
   decide
 
-/-- the witnesses are well-formed CMaps (so the failures are not C04's "malformed input") -/
+/-- the former witnesses are well-formed CMaps -/
 theorem witnesses_wf : (∀ d ∈ defsOf witA, d.wf) ∧ (∀ d ∈ defsOf witB, d.wf) ∧ (∀ d ∈ defsOf witC, d.wf) ∧
     (∀ d ∈ defsOf witD, d.wf) := by
   refine ⟨?_, ?_, ?_, ?_⟩ <;> intro d hd <;>
@@ -455,10 +294,6 @@ theorem witnesses_wf : (∀ d ∈ defsOf witA, d.wf) ∧ (∀ d ∈ defsOf witB,
   · rcases hd with h | h <;> subst h <;> simp [Def.wf]
   · rcases hd with h | h <;> subst h <;> simp [Def.wf]
   · rcases hd with h | h <;> subst h <;> simp [Def.wf]
-
-/-- … and they are exactly outside the guard of `cmap_get_partial` -/
-theorem witnesses_not_separated : separated (defsOf witA) = false ∧ separated (defsOf witB) = false ∧
-    separated (defsOf witC) = false ∧ separated (defsOf witD) = false := by decide
 
 /-! ### segmentation of the byte string into codes -/
 
@@ -621,38 +456,25 @@ returns that list: every surrogate pair becomes ONE scalar value (and nothing el
 theorem surrogates_roundtrip (cs : List Nat) (h : ∀ c ∈ cs, isScalar c) :
     utf16Scalars (encodeUtf16 cs) = cs := utf16_encode_decode_from cs h
 
-/-- … and `decode_text`'s last step returns it unchanged unless the text starts with a unit the
-BOM sniffing of `UTF_16BE.decode` reacts to (F-C15-e). -/
-theorem decode_units_no_bom (us : List Nat)
-    (h : ∀ u, us.head? = some u → u ≠ 0xFEFF ∧ u ≠ 0xFFFE ∧ u ≠ 0xEFBB) :
-    decodeUnits us = .scalars (utf16Scalars us) := by
-  cases us with
-  | nil => rfl
-  | cons u rest =>
-    have ⟨a, b, c⟩ := h u rfl
-    simp [decodeUnits, a, b, c]
-
 /-- **decode_exact** — end to end on the model: for a byte string of mapped, prefix-free codes whose
-targets together are the UTF-16 encoding of the scalar values `cs` (not starting with a BOM-like
-unit), `decode_text` yields exactly `cs`. -/
+targets together are the UTF-16 encoding of the scalar values `cs`, `decode_text` yields exactly `cs`
+(a leading U+FEFF or U+FFFE included: nothing is sniffed, F-C15-e fixed). -/
 theorem decode_exact (m : UMap) (codes : List (List Nat × List Nat)) (cs : List Nat)
     (hseg : ∀ p ∈ codes, SegOk m p.1 p.2) (hcs : ∀ c ∈ cs, isScalar c)
-    (henc : codes.flatMap (·.2) = encodeUtf16 cs)
-    (hbom : ∀ u, (encodeUtf16 cs).head? = some u → u ≠ 0xFEFF ∧ u ≠ 0xFFFE ∧ u ≠ 0xEFBB) :
+    (henc : codes.flatMap (·.2) = encodeUtf16 cs) :
     (match bytesToUnits m (codes.flatMap (·.1)) with
      | .ok us => some (decodeUnits us)
-     | _ => none) = some (.scalars cs) := by
+     | _ => none) = some cs := by
   rw [segment_exact m codes hseg, henc]
-  simp only [decode_units_no_bom _ hbom, surrogates_roundtrip cs hcs]
+  simp only [decodeUnits, surrogates_roundtrip cs hcs]
 
-/-- F-C15-e on the model: a text starting with U+FFFE is byte-swapped, a leading U+FEFF is dropped. -/
-theorem decode_false_bom :
-    decodeUnits [0xFFFE, 0x0041] = .scalars [0x4100] ∧ decodeUnits [0xFEFF, 0x0041] = .scalars [0x41] ∧
-    utf16Scalars [0xFFFE, 0x0041] = [0xFFFE, 0x41] := by decide
+/-- F-C15-e (fixed): a text starting with U+FFFE or U+FEFF is decoded unit by unit like any other. -/
+theorem regress_bom :
+    decodeUnits [0xFFFE, 0x0041] = [0xFFFE, 0x41] ∧ decodeUnits [0xFEFF, 0x0041] = [0xFEFF, 0x41] := by decide
 
 example : utf16Scalars [0xD83D, 0xDE00, 0x41] = [0x1F600, 0x41] := by decide
 
-/-! ### the property, end to end on the model (under the guards) -/
+/-! ### the property, end to end on the model -/
 
 theorem foldl_code_lt (bs : List Nat) : ∀ acc, (∀ b ∈ bs, b < 256) →
     bs.foldl (fun acc b => acc * 256 + b) acc < (acc + 1) * 256 ^ bs.length := by
@@ -681,27 +503,39 @@ def DefinedCode (ds : List Def) (bs v : List Nat) : Prop :=
   (∀ k, 0 < k → k < bs.length → defines ds (codeVal (bs.take k)) k = none) ∧
   defines ds (codeVal bs) bs.length = some v
 
-/-- **cmap_decode_partial** — the property on the model, under the guards: for every well-formed
-CMap whose non-single definitions touch nothing, and every byte string (any length) made of mapped,
-prefix-free codes, `from_sections` succeeds and `bytes_to_string`'s loop produces exactly the
-concatenation of the targets the CMap defines. -/
-theorem cmap_decode_partial (ss : List Section)
-    (hwf : ∀ d ∈ defsOf ss, d.wf) (hsep : separated (defsOf ss) = true)
+/-- **cmap_decode — the property on the model.** For every well-formed CMap and every byte string (any
+length) made of mapped codes none of whose proper prefixes is mapped, `from_sections` succeeds and
+`bytes_to_string`'s loop produces exactly the concatenation of the targets the CMap defines. -/
+theorem cmap_decode (ss : List Section) (hwf : ∀ d ∈ defsOf ss, d.wf)
     (codes : List (List Nat × List Nat)) (hcodes : ∀ p ∈ codes, DefinedCode (defsOf ss) p.1 p.2) :
     ∃ m, fromSections ss = some m ∧ bytesToUnits m (codes.flatMap (·.1)) = .ok (codes.flatMap (·.2)) := by
-  obtain ⟨m, hm, _⟩ := cmap_get_partial ss hwf hsep 0 0 (by unfold U32; omega)
+  obtain ⟨m, hm, _⟩ := cmap_get ss hwf 0 0 (by unfold U32; omega)
   refine ⟨m, hm, segment_exact m codes ?_⟩
   intro p hp
   obtain ⟨h1, h2, h3, h4, h5⟩ := hcodes p hp
   have hget : ∀ c l, c < U32 → get m c l = .ok (defines (defsOf ss) c l) := by
     intro c l hc
-    obtain ⟨m', hm', hg⟩ := cmap_get_partial ss hwf hsep c l hc
+    obtain ⟨m', hm', hg⟩ := cmap_get ss hwf c l hc
     rw [hm] at hm'
     rw [Option.some.inj hm']; exact hg
   refine ⟨h1, h2, ?_, ?_⟩
   · intro k hk1 hk2
     rw [hget _ _ (codeVal_lt_u32 _ (fun b hb => h3 b (List.mem_of_mem_take hb)) (by simp; omega)), h4 k hk1 hk2]
   · rw [hget _ _ (codeVal_lt_u32 _ h3 h2), h5]
+
+/-- … and the decoded text: if the defined targets are the UTF-16 encoding of the scalar values `cs`,
+`decode_text` returns exactly `cs` — every surrogate pair one character. -/
+theorem cmap_decode_text (ss : List Section) (hwf : ∀ d ∈ defsOf ss, d.wf)
+    (codes : List (List Nat × List Nat)) (hcodes : ∀ p ∈ codes, DefinedCode (defsOf ss) p.1 p.2)
+    (cs : List Nat) (hcs : ∀ c ∈ cs, isScalar c) (henc : codes.flatMap (·.2) = encodeUtf16 cs) :
+    ∃ m, fromSections ss = some m ∧
+      (match bytesToUnits m (codes.flatMap (·.1)) with
+       | .ok us => some (decodeUnits us)
+       | _ => none) = some cs := by
+  obtain ⟨m, hm, hb⟩ := cmap_decode ss hwf codes hcodes
+  refine ⟨m, hm, ?_⟩
+  rw [hb, henc]
+  simp only [decodeUnits, surrogates_roundtrip cs hcs]
 
 /-! ### from the text of the stream -/
 
@@ -711,14 +545,14 @@ canonical writer: for every non-empty list of sections of any kinds and sizes wi
 theorem cmap_parse_render (ss : List Section) (hne : ss ≠ []) (hok : ∀ s ∈ ss, SectionOk s) :
     parseCMap (CMapRender.renderCMap ss) = some ss := parse_render ss hne hok
 
-/-- **cmap_text_get_partial** — from the bytes of the /ToUnicode stream to the looked-up target:
+/-- **cmap_text_get** — from the bytes of the /ToUnicode stream to the looked-up target:
 `ToUnicodeCMap::parse` of the written CMap followed by `get` returns what the CMap defines, for every
-code of every length (under the guard of `cmap_get_partial`). -/
-theorem cmap_text_get_partial (ss : List Section) (hne : ss ≠ []) (hok : ∀ s ∈ ss, SectionOk s)
-    (hwf : ∀ d ∈ defsOf ss, d.wf) (hsep : separated (defsOf ss) = true) (c l : Nat) (hc : c < U32) :
+code of every length. -/
+theorem cmap_text_get (ss : List Section) (hne : ss ≠ []) (hok : ∀ s ∈ ss, SectionOk s)
+    (hwf : ∀ d ∈ defsOf ss, d.wf) (c l : Nat) (hc : c < U32) :
     ∃ m, (parseCMap (CMapRender.renderCMap ss)).bind fromSections = some m ∧
       get m c l = .ok (defines (defsOf ss) c l) := by
-  obtain ⟨m, hm, hg⟩ := cmap_get_partial ss hwf hsep c l hc
+  obtain ⟨m, hm, hg⟩ := cmap_get ss hwf c l hc
   exact ⟨m, by rw [parse_render ss hne hok]; exact hm, hg⟩
 
 /-- non-vacuity: a CMap with all three kinds of sections, an array and a surrogate pair is writable -/
